@@ -61,14 +61,18 @@ class Source:
 
 
 class _Strip(ast.NodeTransformer):
-    def __init__(self, drop_imports=True):
+    def __init__(self, drop_imports=True, keep_vectorize=False):
         self.drop_imports = drop_imports
+        self.keep_vectorize = keep_vectorize
         self.depth = 0
 
     def _decos(self, node):
         keep = []
         for d in node.decorator_list:
             s = ast.unparse(d)
+            if s.startswith("nb.vectorize") and self.keep_vectorize:
+                keep.append(d)       # the namespace supplies an elementwise-map `nb.vectorize`
+                continue
             if s.startswith("nb.") or s.startswith("cuda.") or s.startswith("numba."):
                 continue
             keep.append(d)
@@ -283,7 +287,7 @@ def load_module(rel, ns, transforms=(), only=None):
     only: optional iterable of top-level names to keep (defs/classes/assignments)."""
     src = Source.get(rel)
     tree = ast.parse(src.text, filename=src.path)
-    tree = _Strip().visit(tree)
+    tree = _Strip(keep_vectorize=("nb" in ns and ns["nb"] is not None)).visit(tree)
     for t in transforms:
         tree = t(tree) or tree
     if only is not None:
